@@ -228,7 +228,7 @@ def _s(s, ind, out):
     elif t == "tryexc":
         out.append(p + "try:")
         _s(a[0], ind + 1, out)
-        out.append(p + "except InjectedError:")
+        out.append(p + "except InjectedError%s:" % (" as e" if s["s"] else ""))
         _s(a[1], ind + 1, out)
     elif t == "tryfin":
         out.append(p + "try:")
